@@ -64,6 +64,10 @@ func (b Complain) Apply(opt *Option, profile string) (string, error) {
 			return profile, nil
 		}
 	}
+	// The modes exclude each other: complain takes the place of another one
+	flags = slices.DeleteFunc(flags, func(flag string) bool {
+		return flag == "enforce" || flag == "kill" || flag == "unconfined"
+	})
 	flags = append(flags, "complain")
 	strFlags := " flags=(" + strings.Join(flags, ",") + ") {\n"
 
